@@ -254,7 +254,7 @@ CONFIG["C08"] = dict(
 )
 
 CONFIG["C06"] = dict(
-    lean_modules=["Props.C06", "Props.C06Model"], generators=["C06"], level="proof",
+    lean_modules=["Props.C06", "Props.C06Model", "Props.C06Driver"], generators=["C06"], level="proof",
     rule="key generation for (n,t) in {(2,1),(3,1),(3,2),(5,2),(7,3),(10,9),(40,13)} (thorough adds (254,1),(254,253),(100,50)) compared share by share with the model (polynomial derived from the seed by the model's own SHA3/ChaCha20/mapToFr), "
          "guards; stateless reconstruction: every subset of size t..t+2 for n<=6 (thorough n<=7) in random order, an invalid share of 8 kinds at every position, duplicate/out-of-range signers, extra malformed unused share, "
          "index sets straddling the 8-index limb batches up to index 253; every reconstruction compared with the model (coefficient computed by the textbook formula AND by the limb-batched loop, which must agree) and with the one group signature a0*H; "
@@ -265,7 +265,10 @@ CONFIG["C06"] = dict(
                "coeff_is_lagrange: for every index list (entries <= 255) and position the limb-batched loop with sign tracking and Fermat inversion (Model.Threshold.coeff, the function the driver runs) equals the textbook "
                "coefficient prod x_j/(x_j-x_i) in F_r, r prime by a kernel-checked Pratt certificate; c_loop_reconstructs: hence the C loop's weights reconstruct P(0)*h. "
                "Props.C06Model.model_threshold_reconstruction: the same for the EXECUTABLE model - with the model's own curve arithmetic (Mathlib's group law of E1 by Proofs/CurveGroup) and the limb-batched coefficients, for every list of distinct abscissas <= 255, "
-               "every polynomial Q over F_r of degree below the number of signers and every hash point H on the curve that the membership test accepts, Curve.sum of coeff_i * (Q(x_i) * H) equals Q(0) * H as values of the model.",
+               "every polynomial Q over F_r of degree below the number of signers and every hash point H on the curve that the membership test accepts, Curve.sum of coeff_i * (Q(x_i) * H) equals Q(0) * H as values of the model. "
+               "Props.C06Driver.driver_interpolate_reconstructs_nodup: the ORACLE ITSELF - Driver.Threshold.interpolate, the byte-level function every reconstruction of the implementation is compared with (decode the shares, "
+               "compute each coefficient by the textbook formula and by the limb loop, poison on disagreement, multiply, sum, encode) - returns the encoding of Q(0)*H on the encoded shares Q(x_i)*H, for every duplicate-free signer list <= 255; "
+               "the poison branch is dead (coeffSpec_eq_impl) and the codec round-trips every share.",
     level_note="Lean kernel + correspondence",
     assumptions=["BLST multi-scalar multiplication and Fr inversion compute the field/group operations"],
 )
